@@ -36,6 +36,14 @@ Theorem C08_lex_terminates : forall src, lex_source src <> None.
 Proof. exact lex_terminates_lemma. Qed.
 Print Assumptions C08_lex_terminates.
 
+(* Every token the parser is handed, and every comment block, carries a
+   valid source position (line and column at least 1): the position a syntax
+   error is reported at. *)
+Theorem C08_lex_locations_valid : forall src l,
+  lex_source src = Some l -> Forall loc_valid l.
+Proof. exact lex_locations_valid_lemma. Qed.
+Print Assumptions C08_lex_locations_valid.
+
 (* NUM_INT: whatever text the lexer labels NUM_INT is a decimal literal that
    parseInt (with its wrapping uint64 arithmetic and overflow panics) converts
    without a panic to the literal's value, which fits an int64. *)
